@@ -4,6 +4,7 @@ from __future__ import annotations
 import ast
 
 from sa.analyses.base import RuleAnalysis
+from sa.analyses.buffers import through_local
 from sa.analyses.locks import LockHeld, held_names
 from sa.db import AnalysisError, ClassInfo, FunctionInfo, dotted, mangle, norm_stmt, own_nodes
 from sa.exc import CANCELLED
@@ -87,8 +88,8 @@ def check_conf(eng, run):
     rd = eng.db.cls("lowlevel.api_async.transports.tls._IncomingDataReader").methods.get("readinto")
     if rd is None:
         raise AnalysisError("anchor vanished: _IncomingDataReader.readinto")
-    rets = [n for n in own_nodes(rd.node) if isinstance(n, ast.Return) and n.value is not None]
-    ok = all((isinstance(r.value, ast.Call) and _cname(r.value) == "write" and dotted(r.value.func.value) == rd.params()[1].arg) or (isinstance(r.value, ast.Constant)) for r in rets) and \
+    rets = [through_local(rd, n.value) for n in own_nodes(rd.node) if isinstance(n, ast.Return) and n.value is not None]
+    ok = all((isinstance(r, ast.Call) and _cname(r) == "write" and dotted(r.func.value) == rd.params()[1].arg) or (isinstance(r, ast.Constant)) for r in rets) and \
         any(isinstance(n, ast.Call) and _cname(n) == "recv_into" for n in ast.walk(rd.node))
     if not ok:
         run.finding("C08.conf", rd, rd.node, "bytes received from the wrapped transport no longer flow (only) into the incoming BIO")
@@ -96,11 +97,11 @@ def check_conf(eng, run):
     # results to the caller come from the SSL object
     for name in ("recv", "recv_into"):
         fn = tls.methods[name]
-        rets = [r for r in own_nodes(fn.node) if isinstance(r, ast.Return) and r.value is not None and not isinstance(r.value, ast.Constant)]
-        ok = bool(rets) and all(isinstance(r.value, ast.Await) and isinstance(r.value.value, ast.Call) and _cname(r.value.value) == "_retry_ssl_method" and r.value.value.args
-                                and (dotted(r.value.value.args[0]) or "").endswith("_ssl_object.read") for r in rets)
+        rets = [through_local(fn, r.value) for r in own_nodes(fn.node) if isinstance(r, ast.Return) and r.value is not None and not isinstance(r.value, ast.Constant)]
+        ok = bool(rets) and all(isinstance(r, ast.Await) and isinstance(r.value, ast.Call) and _cname(r.value) == "_retry_ssl_method" and r.value.args
+                                and (dotted(r.value.args[0]) or "").endswith("_ssl_object.read") for r in rets)
         if not ok:
-            run.finding("C08.conf", fn, rets[0] if rets else fn.node, "data handed to the caller does not come from ssl_object.read(): ciphertext (or unauthenticated bytes) could be returned")
+            run.finding("C08.conf", fn, fn.node, "data handed to the caller does not come from ssl_object.read(): ciphertext (or unauthenticated bytes) could be returned")
         run.ob("C08.conf", f"{fn.short}:result-from-ssl-object", ok)
     # blocking transport: the raw socket is not used after wrap_socket
     s = eng.db.fn("lowlevel.api_sync.transports.socket:SSLStreamTransport.__init__")
